@@ -16,7 +16,7 @@ from vf.strategies import _pyproj, affines, crs_tags, mk_affine, mk_crs_spec
 RULE = (
     "Hypothesis cases: image shape 1..700 per side (tiny 1..24, small 25..300, 1-2 pixel strips up to 700, sides in "
     "{511,512,513} around the 512 default-overview rule, large 514..700), layout YX / band-first / band-last with "
-    "1..5 bands (band-last passed as a strided view or contiguous), dtypes u1,i1,u2,i2,u4,i4,f4,f8 with a "
+    "1..5 bands, up to 24 on tiny images (band-last passed as a strided view or contiguous), dtypes u1,i1,u2,i2,u4,i4,f4,f8 with a "
     "position-and-band dependent pixel pattern (dtype extremes, NaN for floats), nodata absent / in attrs / as "
     "keyword / both, CRS tag pool (all spellings), north-up / mirrored / rotated / sheared affines (exact dyadic and "
     "general floats), blocksize (multiples of 16 and not, below and above the image size), ovr_blocksize, "
